@@ -179,3 +179,42 @@ M("C01-twin-new-name-for-broadcast", {"C01": None},
   (_K, "            if total_vals[arg_general_min] < total_vals[cluster] - label_switching_cost[i]:", "            if total_vals[arg_general_min] < total_vals[cluster] - beta[i]:"),
   (_K, "                future_cost_vals[i, cluster] = total_vals[cluster] - label_switching_cost[i]", "                future_cost_vals[i, cluster] = total_vals[cluster] - beta[i]"))
 M("C01-twin-uint32", {"C01": None}, (_K, "dtype=np.uint16", "dtype=np.uint32"))
+
+# ---------------------------------------------------------------- C07
+_DP = "data_preparation.py"
+M("C07-prefix-mask-off-by-one", {"C07": "C07.R2"}, (_DP, "    template[[endpoint - 1 for endpoint in endpoints]] = 0\n", "    template[endpoints] = 0\n"))
+M("C07-mask-filter-small", {"C07": "C07.R2"}, (_DP, "[endpoint - 1 for endpoint in endpoints]", "[endpoint - 1 for endpoint in endpoints if endpoint > 1]"))
+M("C07-mask-keeps-last", {"C07": "C07.R2"}, (_DP, "    endpoints.pop()\n", ""))
+M("C07-mask-pops-first", {"C07": "C07.R2"}, (_DP, "    endpoints.pop()\n", "    endpoints.pop(0)\n"))
+M("C07-mask-value-small", {"C07": "C07.R2"}, (_DP, "[endpoint - 1 for endpoint in endpoints]] = 0", "[endpoint - 1 for endpoint in endpoints]] = 1e-9"))
+M("C07-mask-zeros-base", {"C07": "C07.R2"}, (_DP, "    template = np.ones(shape=(num_points_total,))", "    template = np.ones(shape=(num_points_total - 1,))"))
+M("C07-vstack-filter-short", {"C07": "C07.R1", "C10": "C10.R2"},
+  (_DP, "    combined_data_series = np.vstack(stacked_data)", "    combined_data_series = np.vstack([block for block in stacked_data if block.shape[0] > 1])"))
+M("C07-stack-combined-then-window", {"C07": "C07.R1", "C10": "C10.R2"},
+  (_DP, "    stacked_data = [\n        stack_training_data(data, window_size) for data in all_series\n    ]\n\n    # Concatenate the individual stacks into our one big brick.\n    combined_data_series = np.vstack(stacked_data)\n",
+   "    combined_data_series = stack_training_data(np.vstack(all_series), window_size)\n"))
+M("C07-vstack-reversed", {"C07": "C07.R1", "C10": "C10.R2"},
+  (_DP, "stack_training_data(data, window_size) for data in all_series\n", "stack_training_data(data, window_size) for data in reversed(all_series)\n"))
+M("C07-joint-default-differs", {"C07": "C07.R4"}, ("front_end.py", "                      min_cluster_size: int = 20,\n                      biased_covariance: bool = False) -> results.MultipleDataSeriesResult:", "                      min_cluster_size: int = 10,\n                      biased_covariance: bool = False) -> results.MultipleDataSeriesResult:"))
+M("C07-joint-floor-hardwired", {"C07": "C07.R4", "C03": "C03.R4"}, ("front_end.py", "        min_meaningful_covariance=min_meaningful_covariance,\n        num_processors=num_processors,\n        min_cluster_size=min_cluster_size,\n        biased_covariance=biased_covariance)\n\n    lsc_template", "        min_meaningful_covariance=0,\n        num_processors=num_processors,\n        min_cluster_size=min_cluster_size,\n        biased_covariance=biased_covariance)\n\n    lsc_template"))
+M("C07-mask-from-raw-lengths", {"C07": "C07.R4"}, ("front_end.py", "    lsc_template = data_preparation.label_switching_cost_template(\n        stacked_data_sizes)", "    lsc_template = data_preparation.label_switching_cost_template(\n        [len(series) for series in data_series])"))
+# the repaired form of F4b is silent (and no KNOWN-FINDING is needed for it)
+M("C07-twin-F4b-repaired", {"C07": None},
+  ("front_end.py", "    args = arguments.UserArguments(\n        window_size=window_size,\n        num_clusters=num_clusters,\n        sparsity_weight=sparsity_weight,\n        label_switching_cost=label_switching_cost,\n        iteration_limit=iteration_limit,\n        min_meaningful_covariance=min_meaningful_covariance,\n        num_processors=num_processors,\n        min_cluster_size=min_cluster_size,\n        biased_covariance=biased_covariance)\n\n    lsc_template = data_preparation.label_switching_cost_template(\n        stacked_data_sizes)\n    label_switching_cost = label_switching_cost * lsc_template\n",
+   "    lsc_template = data_preparation.label_switching_cost_template(\n        stacked_data_sizes)\n    label_switching_cost = label_switching_cost * lsc_template\n\n    args = arguments.UserArguments(\n        window_size=window_size,\n        num_clusters=num_clusters,\n        sparsity_weight=sparsity_weight,\n        label_switching_cost=label_switching_cost,\n        iteration_limit=iteration_limit,\n        min_meaningful_covariance=min_meaningful_covariance,\n        num_processors=num_processors,\n        min_cluster_size=min_cluster_size,\n        biased_covariance=biased_covariance)\n"))
+M("C07-twin-mask-slice", {"C07": None},
+  (_DP, "    endpoints = list(itertools.accumulate(stacked_series_lengths))\n", "    endpoints = list(itertools.accumulate(stacked_series_lengths))[:-1]\n"),
+  (_DP, "    endpoints.pop()\n", ""))
+M("C07-twin-mask-array", {"C07": None}, (_DP, "    template[[endpoint - 1 for endpoint in endpoints]] = 0\n", "    template[np.array(endpoints) - 1] = 0\n"))
+
+# ---------------------------------------------------------------- C18
+_S = "admm/solver.py"
+M("C18-prefix-isinstance-float", {"C18": "C18.R1"}, (_S, "    if np.ndim(lambda_parameter) == 0:", "    if isinstance(lambda_parameter, float):"))
+M("C18-int-float-only", {"C18": "C18.R1"}, (_S, "    if np.ndim(lambda_parameter) == 0:", "    if isinstance(lambda_parameter, (int, float)):"))
+M("C18-type-is-float", {"C18": "C18.R1"}, (_S, "    if np.ndim(lambda_parameter) == 0:", "    if type(lambda_parameter) is float:"))
+M("C18-epsilon-float-only", {"C18": "C18.R1"}, ("graphical_lasso.py", "    small_element_indices = (filtered < epsilon) & (filtered > -epsilon)\n    filtered[small_element_indices] = 0\n", "    if isinstance(epsilon, float):\n        small_element_indices = (filtered < epsilon) & (filtered > -epsilon)\n        filtered[small_element_indices] = 0\n"))
+M("C18-price-float-shortcut", {"C18": ["C18.R1", "C18.R3"]}, ("cluster_label_assignment.py", "    new_model = model.shallow_copy()\n    new_model.clusters", "    if isinstance(model.arguments.label_switching_cost, float) and model.arguments.label_switching_cost == 0:\n        cost = float(np.sum(np.min(label_assignment_cost, axis=1)))\n    new_model = model.shallow_copy()\n    new_model.clusters"))
+M("C18-scalar-count-minus-one", {"C18": "C18.R2"}, (_S, "        num_occurrences = num_blocks - block_id\n        return float(lambda_parameter) * num_occurrences", "        num_occurrences = num_blocks - block_id - 1\n        return float(lambda_parameter) * num_occurrences"))
+M("C18-matrix-first-times-count", {"C18": "C18.R2"}, (_S, "        return np.sum(lambda_parameter[rows, cols])", "        return lambda_parameter[rows[0], cols[0]] * len(rows)"))
+M("C18-twin-numbers-real", {"C18": None}, (_S, "    if np.ndim(lambda_parameter) == 0:", "    if isinstance(lambda_parameter, numbers.Real):"), (_S, "import math\n", "import math\nimport numbers\n"))
+M("C18-twin-isscalar", {"C18": None}, (_S, "    if np.ndim(lambda_parameter) == 0:", "    if np.isscalar(lambda_parameter):"))
